@@ -43,6 +43,10 @@ type Case struct {
 	BackgroundPct int    `json:"backgroundPct,omitempty"` // background loss in the writer's direction (percent)
 	DropAcksMs    int    `json:"dropAcksMs,omitempty"`    // drop every ack travelling towards the writer during the first N ms
 	LatencyMs     int    `json:"latencyMs,omitempty"`     // one-way latency of the (otherwise perfect, FIFO) path
+	// LateReader: the reader starts 6.5 s after the writer closed - after the
+	// receiving underlay's 5 s session clean-up, which other traffic on the same
+	// underlay (a second, multiplexed session opened at 5.3 s) gives the chance to run
+	LateReader bool `json:"lateReader,omitempty"`
 	Seed          uint64 `json:"seed"`
 	Salt          uint64 `json:"salt"`
 }
@@ -77,13 +81,26 @@ func genCase(t *rapid.T) Case {
 		c.ReadBuf = 100
 	}
 	c.ReaderWrites = rapid.SampledFrom([]int{0, 0, 100, 5000}).Draw(t, "readerWrites")
+	if rapid.IntRange(0, 11).Draw(t, "lateReader") == 0 {
+		c.LateReader, c.ReaderLagMs = true, 6500
+		// what the receiver has to hold unread: within the first UDP window
+		for i := range c.Writes {
+			if c.Writes[i] > 4000 {
+				c.Writes[i] = 4000
+			}
+		}
+	}
 	c.ClientPat = e2e.GenPattern(t, "cp", 2)
 	c.ServerPat = e2e.GenPattern(t, "sp", 2)
 	c.Seed = rapid.Uint64().Draw(t, "seed")
 	c.Salt = rapid.Uint64().Draw(t, "salt")
 	if c.UDP {
 		c.MTU = rapid.SampledFrom([]int{0, 1280, 1500}).Draw(t, "mtu")
-		switch rapid.IntRange(0, 6).Draw(t, "faultClass") {
+		fc := rapid.IntRange(0, 6).Draw(t, "faultClass")
+		if c.LateReader {
+			fc = 0
+		}
+		switch fc {
 		case 0: // fault free
 		case 6: // fault free with a wide-area round-trip time
 			c.LatencyMs = rapid.SampledFrom([]int{10, 50, 100, 150}).Draw(t, "latencyMs")
@@ -133,7 +150,11 @@ func total(ws []int) int64 {
 }
 
 func prop(c Case) (o pbt.Outcome) {
-	cfg := e2e.Config{UDP: c.UDP, NoWait: c.NoWait, RawClient: c.RawClient, ClientPattern: c.ClientPat, ServerPattern: c.ServerPat, ClientMTU: c.MTU, ServerMTU: c.MTU}
+	mux := 0
+	if c.LateReader {
+		mux = 4
+	}
+	cfg := e2e.Config{UDP: c.UDP, NoWait: c.NoWait, RawClient: c.RawClient, Multiplex: mux, ClientPattern: c.ClientPat, ServerPattern: c.ServerPat, ClientMTU: c.MTU, ServerMTU: c.MTU}
 	sn := simnet.NewStreamNet(simnet.StreamOpts{ChunksC2S: c.Chunks, ChunksS2C: c.Chunks, BufC2S: c.Buf, BufS2C: c.Buf})
 	pn := simnet.NewPacketNet()
 	W := total(c.Writes)
@@ -411,6 +432,27 @@ func prop(c Case) (o pbt.Outcome) {
 	closeStart := time.Now()
 	writer.Close()
 	closeTook := time.Since(closeStart)
+	if c.LateReader {
+		// other traffic on the same underlays once the clean-up tick has passed
+		go func() {
+			time.Sleep(5300 * time.Millisecond)
+			ctx2, cancel2 := context.WithTimeout(context.Background(), 5*time.Second)
+			defer cancel2()
+			pc, err := env.Dial(ctx2, 1)
+			if err != nil {
+				return
+			}
+			defer pc.Close()
+			pc.Write([]byte{1})
+			if sc2, err := env.ServerSide(1, 5*time.Second); err == nil {
+				sc2.Conn.Write([]byte{2})
+				one := make([]byte, 1)
+				pc.SetReadDeadline(time.Now().Add(2 * time.Second))
+				pc.Read(one)
+				sc2.Conn.Close()
+			}
+		}()
+	}
 	r := <-readerDone
 	reader.Close()
 
@@ -425,6 +467,7 @@ func prop(c Case) (o pbt.Outcome) {
 	o.Obs = map[string]any{"written": written, "read": r.n, "readerErr": fmt.Sprint(r.err), "closeTookMs": closeTook.Milliseconds(), "closeRequestLeftAfterMs": grace.Milliseconds(), "wire": notes}
 	o.Label("latency=%v", c.LatencyMs > 0)
 	o.Label("rawClient=%v", c.RawClient)
+	o.Label("readerAfterCleanup=%v", c.LateReader)
 	o.Label("udp=%v", c.UDP)
 	o.Label("serverWrites=%v", c.ServerWrites)
 	o.Label("faultOnData=%v", fOnData)
